@@ -692,3 +692,51 @@ def _negated_text(test_text):
     if isinstance(t, (ast.Name, ast.Attribute, ast.Call, ast.Subscript)):
         return "not " + U(t)
     return None
+
+
+def filtered_collection(fv, name, at):
+    """Recognise ``name`` (as seen at ``at``) as the sub-sequence of a source iterable that
+    satisfies a condition, written either as ``[x for x in SRC if COND]`` or as
+    ``name = []; for x in SRC: if COND: name.append(x)``.
+    Returns (source text, condition text with the element variable replaced by ``_``, defining statement) or None."""
+    node = fv.node_of(at)
+    if node is None:
+        return None
+    defs = [d for d in fv.defs_reaching(name, node) if d.stmt is not None]
+    if len(defs) != 1:
+        return None
+    d = defs[0]
+    v = fv.value_of_def(d, name)
+
+    def norm(cond, var):
+        class R(ast.NodeTransformer):
+            def visit_Name(self, n):
+                return ast.copy_location(ast.Name(id="_", ctx=n.ctx), n) if n.id == var else n
+
+        return U(R().visit(copy.deepcopy(cond)))
+
+    if isinstance(v, ast.ListComp) and len(v.generators) == 1 and isinstance(v.generators[0].target, ast.Name):
+        g = v.generators[0]
+        if U(v.elt) == g.target.id and len(g.ifs) == 1:
+            return U(g.iter), norm(g.ifs[0], g.target.id), d.stmt
+        return None
+    if isinstance(v, ast.List) and not v.elts:
+        si = stmt_index(fv)
+        apps = [c for c in fv.calls() if isinstance(c.func, ast.Attribute) and c.func.attr == "append" and U(c.func.value) == name
+                and d in fv.defs_reaching(name, fv.node_of(c))]
+        others = [c for c in fv.calls() if isinstance(c.func, ast.Attribute) and U(c.func.value) == name and c.func.attr in MUTATORS - {"append"}]
+        if len(apps) != 1 or others:
+            return None
+        c = apps[0]
+        lpq = si.enclosing(c, (ast.For,))
+        if lpq is None or not isinstance(lpq[0].target, ast.Name):
+            return None
+        lp = lpq[0]
+        var = lp.target.id
+        if len(c.args) != 1 or U(c.args[0]) != var:
+            return None
+        conds = [(t, p) for t, p in si.effective_guards(c) if any(x is t for x in ast.walk(lp))]
+        if len(conds) != 1 or not conds[0][1]:
+            return None
+        return U(lp.iter), norm(conds[0][0], var), d.stmt
+    return None
